@@ -98,9 +98,19 @@ def judge(v, res):
     return True, f"ok   {v['id']} silent"
 
 
-def run_selftest(props=None, repo="/repo", jobs=16, seed=0, update_evidence=False, only=None):
+ALL_PROPS = [f"C{i:02d}" for i in range(1, 19)]
+
+
+def run_selftest(props=None, repo="/repo", jobs=16, seed=0, update_evidence=False, only=None, cross=False):
+    """cross=True: every behaviour-preserving ('silent') variant, whatever property it was written for, is run against
+    ALL property checks (or `props`) and must stay silent everywhere - a rule of property A must not fire on an edit
+    that was designed as a harmless twin for property B."""
     t0 = time.time()
     variants = load_variants()
+    if cross:
+        targets = props or ALL_PROPS
+        variants = [dict(v, props=targets) for v in variants if v["expect"] == "silent" and not v.get("local")]
+        props = None
     if props:
         variants = [v for v in variants if set(v["props"]) & set(props)]
     if only:
